@@ -143,8 +143,8 @@ class ModelOrderEngine(Engine):
 
     def plan(self, prop, tier):
         if tier == 'quick':
-            return {'runs': 320, 'chunk': 4, 'wall_cap': 240, 'determinism_runs': 4, 'hard_s': 300}
-        return {'runs': 6000, 'chunk': 8, 'wall_cap': 3000, 'determinism_runs': 8, 'hard_s': 300}
+            return {'runs': 1200, 'chunk': 4, 'wall_cap': 240, 'determinism_runs': 4, 'hard_s': 300}
+        return {'runs': 30000, 'chunk': 8, 'wall_cap': 3000, 'determinism_runs': 8, 'hard_s': 300}
 
     def describe(self, prop):
         what = {'C14': 'the component schema built by build_component (classes with attributes in modelled order, '
